@@ -488,6 +488,8 @@ def check_primitives(prog):
                 body_first = x.targets[0].id
         two = any(isinstance(x, ast.Call) and isinstance(x.func, ast.Name) and (
             (x.func.id == "bytearray" and len(x.args) == 1 and isinstance(x.args[0], (ast.Tuple, ast.List)) and len(x.args[0].elts) == 2)
+            or (x.func.id == "bytearray" and len(x.args) == 1 and isinstance(x.args[0], ast.Call) and isinstance(x.args[0].func, ast.Name)
+                and x.args[0].func.id == "divmod" and len(x.args[0].args) == 2)
             or x.func.id == "encode16Int") for x in ast.walk(r.node)) or getattr(r, "packed", None) is not None
         if body_first is not None and two:
             W = 2
